@@ -3,7 +3,9 @@ import LoguruModel.Driver
 open Conc
 
 /-! Acceptor: replays a real trace (one shared access per line) on `Conc.step`.
-`reset` starts a new trace; `<tid> <label…>` must be an enabled transition of the model. -/
+`reset` starts a new trace; `<tid> <label…>` must be an enabled transition of the model.  When a logging call
+returns after its handler loop the answer carries the model's bookkeeping of that call (written / skipped / found
+stopped / snapshot) so that the harness can compare it with what the real sinks received. -/
 
 def parseIds (s : String) : Option (List Nat) :=
   if s = "-" then some [] else
@@ -18,6 +20,7 @@ def parseLab : List String → Option Lab
   | ["start", "log", m] => m.toNat?.map (fun n => .start (.log n))
   | ["start", "other"] => some (.start .other)
   | ["start", "fork"] => some (.start .fork)
+  | ["start", "complete"] => some (.start .complete)
   | ["forkAcq", ids] => (parseIds ids).map .forkAcq
   | ["forked"] => some .forked
   | ["acqCore"] => some .acqCore
@@ -58,8 +61,12 @@ def main : IO Unit := do
         | some t, some lab =>
           match step s t lab with
           | some s' =>
+            -- a logging call returns: report what the model says it delivered (ghost bookkeeping of Conc/Exact)
+            match lab, s.pc t with
+            | .early, .lL m [] wr =>
+              stdout.putStrLn s!"ok ret {t} {m} wr={wr} skipped={s.skipped t} gone={s.gone t} snap={s.snap t}"
+            | _, _ => stdout.putStrLn "ok"
             s := s'
-            stdout.putStrLn "ok"
           | none => stdout.putStrLn s!"reject not-enabled reg={s.reg} count={s.count} core={s.coreLock}"
         | _, _ => stdout.putStrLn "bad-op"
       | [] => stdout.putStrLn "bad-op"
